@@ -358,6 +358,7 @@ func checkC13(p *core.Program, r *core.Report) {
 	r.Rule("R6", "JSON: jsonTypeToXValue has an arm for each of the 6 value types a valid document contains and builds the matching X type; no regexp gate narrower than the JSON number grammar stands between a JSON number and its XNumber; decimals marshal without quotes; every XValue type has its own MarshalJSON; array and object marshalers emit every element")
 	r.Rule("R7", "`=` and `!=` compare canonical renderings: both are built by textualBinary, which converts each operand with ToXText (Render); NotEqual is the negation of the same XText.Equals call; XText.Equals is string equality")
 	r.Rule("R8", "a year is read as two-digit only when two digits were matched: every place in envs that adds a century (1900 / 2000) to a parsed year is guarded — in the function or at every call site of the helper it sits in — by a test on the length of the matched text, not on the year's value (years 1–99 are rendered with four digits, 0045, and must read back as 45)")
+	r.Rule("R9", "whether a component was found is asked of the parser, not of the value: where envs calls one of its own functions that returns (found bool, value) and uses the value, it also uses the flag — midnight (00:00, 12:00 am) is a time that was found and whose value is the zero time of day; deciding `no time given` by comparing the value with zero fills a stored midnight with the current time when it is read back into a contact field")
 	r.Assumption("Go's time.Parse/Format, shopspring/decimal's String/NewFromString and buger/jsonparser are taken as correct; DST folds, UTC offsets with a seconds part, and locales whose am/pm markers are not am/pm are outside what is decided")
 
 	envsPk := p.Pkg("envs")
@@ -381,6 +382,51 @@ func checkC13(p *core.Program, r *core.Report) {
 	c13JSON(p, r, typesSSA)
 	c13Equal(p, r)
 	c13CenturyPivot(p, r)
+	c13FoundFlags(p, r)
+}
+
+// ---------------------------------------------------------------------------------------------- R9
+
+func c13FoundFlags(p *core.Program, r *core.Report) {
+	n := 0
+	per := map[string]int{}
+	for _, fn := range p.ModuleFunctions() {
+		if core.RelPkg(core.FuncPkgPath(fn)) != "envs" || p.IsTestFile(fn.Pos()) || fn.Synthetic != "" {
+			continue
+		}
+		for _, cs := range core.Calls(fn, false) {
+			g := cs.Common().StaticCallee()
+			if g == nil || core.FuncPkgPath(g) != core.FuncPkgPath(fn) || g.Signature.Results().Len() != 2 {
+				continue
+			}
+			if b, ok := g.Signature.Results().At(0).Type().Underlying().(*types.Basic); !ok || b.Kind() != types.Bool {
+				continue
+			}
+			call, ok := cs.Instr.(*ssa.Call)
+			if !ok || call.Referrers() == nil {
+				continue
+			}
+			used := [2]bool{}
+			for _, ref := range *call.Referrers() {
+				if ex, ok := ref.(*ssa.Extract); ok && ex.Index < 2 && ex.Referrers() != nil && len(*ex.Referrers()) > 0 {
+					used[ex.Index] = true
+				}
+			}
+			if !used[1] {
+				continue
+			}
+			n++
+			k := core.FuncName(fn) + "->" + g.Name()
+			per[k]++
+			key := k
+			if per[k] > 1 {
+				key = fmt.Sprintf("%s#%d", k, per[k])
+			}
+			r.Check(used[0], "R9", key+"/found-flag-used", p.Pos(cs.Pos()), "the value is used together with the flag that says it was found", "the value "+g.Name()+" returns is used but the flag that says whether anything was found is dropped: `nothing found` is then told from the value, and a found value that equals the zero value (midnight) counts as missing")
+		}
+	}
+	r.Count("found_flag_call_sites", n)
+	r.Require("found_flag_call_sites", n, 1)
 }
 
 // ---------------------------------------------------------------------------------------------- R8
